@@ -5,7 +5,7 @@ import Nstd.Buffer.PropsTr
 namespace Nstd.Buffer
 open C
 
-set_option maxHeartbeats 3000000 in
+set_option maxHeartbeats 2000000 in
 /-- `append(const Buffer& data)`, `data` another object with exposed bytes `data` -/
 theorem tr_appendBuf (v w : Nat) (b : Buf) (hb : BInv v b) (L : Ledger) (hl : LiveIn b L) (hbd : Bounded L)
     (data : List Byte) (lo : Bool) (ob : Ptr) (oc : Nat) :
@@ -42,7 +42,7 @@ theorem tr_appendBuf (v w : Nat) (b : Buf) (hb : BInv v b) (L : Ledger) (hl : Li
       subst h4
       tr_simp [Buf.append, Buf.resize, argObj]
 
-set_option maxHeartbeats 3000000 in
+set_option maxHeartbeats 2000000 in
 /-- `append(data, size)` with `data` outside the object: the copy-first test and `inside` are false, then as `append(const Buffer&)` -/
 theorem tr_append (v t : Nat) (b : Buf) (hb : BInv v b) (L : Ledger) (hl : LiveIn b L) (hbd : Bounded L)
     (data : List Byte) (lo : Bool) :
